@@ -96,4 +96,13 @@ func init() {
 		ruleShortestMetric(p, r, []string{"mxj.Map.PathForKeyShortest", "x2jw.PathForKeyShortest"})
 		ruleAliasReuse(p, r, p.PkgFuncs("mxj"))
 	})
+
+	register("INFt", "temporary", nil, func(p *Prog, r *Report) {
+		ruleInflCover(p, r)
+		ruleInflFieldSep(p, r)
+		ruleInflCastFlag(p, r)
+		ruleInflFilter(p, r, []string{"mxj.hasKey", "mxj.valuesForKeyPath", "mxj.updateValuesForKeyPath", "mxj.updateValue"})
+		ruleInflIndent(p, r)
+		ruleInflCrumb(p, r, []string{"mxj.hasKeyPath", "x2jw.hasKeyPath"})
+	})
 }
